@@ -83,6 +83,9 @@ def step (d : DSt) (toks : List String) : DSt × String :=
       | some _, none => (d, "blocked")
       | some _, some _ => (d, "enabled")
     | none => (d, "bad-op")
+  | "probe-in-e" :: _ =>
+    -- in the model the unlock E (flag flip + replay of the buffer) is ONE critical section
+    (d, "blocked")
   | "probe-in-w2" :: _ =>
     -- in the model W2 (flag read + deliver/append) is ONE critical section: nothing interleaves
     (d, "blocked")
